@@ -200,7 +200,8 @@ class Run:
 
     def execute(self):
         ctx = self.ctx
-        self.origin = rustgen.Origin(ctx, self.name, self.us).build()
+        with vlib.Lock("c04-origin-" + self.name):
+            self.origin = rustgen.Origin(ctx, self.name, self.us).build()
         o = self.origin
         roots = [(ui, r) for ui, u in enumerate(self.us) for r in u["roots"] if o.status[ui] == "ok"]
         ans = o.query([{"m": ui, "t": r, "op": "schema"} for ui, r in roots])
@@ -213,7 +214,8 @@ class Run:
                     continue   # identical to D
                 self.case_of[(ui, r, route)] = len(self.cases)
                 self.cases.append(route_case(doc, r, route))
-        self.world = world.World(ctx, self.name, self.cases, chunks_fn=anon_root_chunk).build()
+        with vlib.Lock("c04-world-" + self.name):
+            self.world = world.World(ctx, self.name, self.cases, chunks_fn=anon_root_chunk).build()
         w = self.world
         for (ui, r, route), c in sorted(self.case_of.items()):
             if w.status[c] == "not-generated":
@@ -457,6 +459,12 @@ def k5_origin(ctx, run, tag, limit):
         items.append((s["ui"], s["x"], s["j"], None))
     for (ui, x, cand, a) in run.k5_inputs:
         items.append((ui, x, cand, a))
+    # members with skip_serializing_if on an integer / String / bool have no counterpart in IR/Serde.v (POptional skips
+    # None, empty Vec, empty map only): universes that use one are left out of the model comparison (counted)
+    unmodelled = set(ui for ui, u in enumerate(run.us)
+                     if any(('"skip_if": "%s"' % k) in json.dumps(u) for k in ("is_zero", "str_empty", "not")))
+    ctx.coverage["k5_origin_universes_with_unmodelled_skip_predicates"] = len(unmodelled)
+    items = [it for it in items if it[0] not in unmodelled]
     uniq = []
     for it in items:
         key = (it[0], it[1], json.dumps(it[2], sort_keys=True))
@@ -600,7 +608,7 @@ def shrink(ctx, u, root, pred_kind, seed):
         if not cands:
             break
         try:
-            r = Run(ctx, "c04shrink", cands, 6, seed, routes=("R", "D")).execute()
+            r = Run(ctx, "c04shrink%s" % seed, cands, 6, seed, routes=("R", "D")).execute()
         except Exception as e:  # noqa
             ctx.log("shrink round failed: %r" % e)
             break
@@ -615,6 +623,28 @@ def shrink(ctx, u, root, pred_kind, seed):
             break
         cur = cands[good]
     return cur
+
+
+def cleanup_stale(max_age_s=2 * 3600):
+    """scratch of EARLIER runs of this check (per-seed origin crates, worlds, case files): removed when older than
+    two hours, so that concurrent runs (other seeds, the integrator's sweeps) never delete each other's files"""
+    import shutil
+    import time
+    now = time.time()
+    with vlib.Lock("c04-cleanup"):
+        for base, pref in ((os.path.join(vlib.WORK, "c04"), ("c04q", "c04t", "c04shrink", "c04dev", "c04sweep", "c04fdev")),
+                           (os.path.join(vlib.WORK, "world"), ("c04q", "c04t", "c04shrink", "c04dev")),
+                           (os.path.join(vlib.WORK, "cases"), ("c04k5", "c04f", "c04we"))):
+            if not os.path.isdir(base):
+                continue
+            for d in os.listdir(base):
+                pth = os.path.join(base, d)
+                if d.startswith(pref) and os.path.isdir(pth):
+                    try:
+                        if now - os.path.getmtime(pth) > max_age_s:
+                            shutil.rmtree(pth, ignore_errors=True)
+                    except OSError:
+                        pass
 
 
 def run(ctx):
@@ -642,6 +672,7 @@ def run(ctx):
         "C04F_fragment_wire_compat: for every universe of rust_frag the property is a theorem about the models "
         "(schemars model / converter model / ir_of_rust / Serde.v), each tied to the real code on every run",
     ]
+    cleanup_stale()
     vlib.build_harness(bins=("vh", "c04"))
     alt = os.environ.get("C04_VH")          # emulation of a change to typify: a `vh` built against a modified COPY of /repo
     if alt:
@@ -654,7 +685,11 @@ def run(ctx):
     fragus = c04f_tie.generate(ctx.seed, 24 if quick else 120)
     us = [c["universe"] for c in corpus] + rand + fragus
     extra = {i: c.get("values", {}) for i, c in enumerate(corpus)}
-    name = ("c04q" if quick else "c04t") + (("x" + __import__("hashlib").sha256(open(alt, "rb").read()).hexdigest()[:6]) if alt else "")
+    # names carry the seed: runs with different seeds (or tiers) never evict each other's crates; runs with the same
+    # seed build under a lock and then share the cache; case files are private to the process
+    name = ("c04q" if quick else "c04t") + ("s%s" % ctx.seed) + \
+        (("x" + __import__("hashlib").sha256(open(alt, "rb").read()).hexdigest()[:6]) if alt else "")
+    uniq = "%s-%d" % (name, os.getpid())
     run_ = Run(ctx, name, us, 6 if quick else 8, ctx.seed, extra_values=extra, nmut=1).execute()
     o, w = run_.origin, run_.world
 
@@ -662,7 +697,8 @@ def run(ctx):
     THEOREMS = theorem_names(PROPS, "C04_")
     coq_ok = False
     if THEOREMS:
-        coq_ok = vlib.standard_coq_obligations(ctx, "Props.C04", THEOREMS, vlib.STD_AXIOMS)
+        with vlib.Lock("c04-audit"):     # work/audit/Audit_C04.v is one file: concurrent C04 runs take turns
+            coq_ok = vlib.standard_coq_obligations(ctx, "Props.C04", THEOREMS, vlib.STD_AXIOMS)
     else:
         ctx.oblige("Props/C04.v present", False, "property theorem file missing")
 
@@ -670,12 +706,13 @@ def run(ctx):
     f_thms = re.findall(r"\b(?:Theorem|Example)\s+(C04F_\w+)", vlib.strip_coq_comments(open(PROPS.replace("C04.v", "C04F.v")).read())) \
         if os.path.exists(PROPS.replace("C04.v", "C04F.v")) else []
     if f_thms:
-        vlib.standard_coq_obligations(ctx, "Props.C04F", f_thms, vlib.STD_AXIOMS)
+        with vlib.Lock("c04-audit"):
+            vlib.standard_coq_obligations(ctx, "Props.C04F", f_thms, vlib.STD_AXIOMS)
     else:
         ctx.oblige("Props/C04F.v present", False, "fragment theorem file missing")
     tie_bad = None
     try:
-        res, real, dumps = c04f_tie.evaluate(ctx, "c04f" + ("q" if quick else "t"), us, o)
+        res, real, dumps = c04f_tie.evaluate(ctx, "c04f-" + uniq, us, o)
         summ = c04f_tie.summarize(res, us)
         ctx.coverage["c04f_tie"] = {k: (len(v) if isinstance(v, list) else v) for k, v in summ.items()}
         nin, nout = summ["in_fragment"], summ["outside"]
@@ -812,7 +849,7 @@ def run(ctx):
         ok, out = vlib.coq_make(["theories/Algo/RustDefs.vo", "theories/IR/SerdeRun.vo"])
         if not ok:
             raise RuntimeError("RustDefs.v does not build: " + out[-1500:])
-        n_k5, n_acc, k5_mism = k5_origin(ctx, run_, "c04k5" + ("q" if quick else "t"), 2500 if quick else 12000)
+        n_k5, n_acc, k5_mism = k5_origin(ctx, run_, "c04k5-" + uniq, 2500 if quick else 12000)
         ctx.oblige("correspondence K5-origin: IR/Serde.v de/ser on ir_of_rust(U) = compiled origin from_str/to_value "
                    "on %d (type, JSON) pairs (%d accepted, %d rejected by the origin)" % (n_k5, n_acc, n_k5 - n_acc),
                    not k5_mism, json.dumps(k5_mism[:2], ensure_ascii=True)[:1800])
@@ -827,7 +864,7 @@ def run(ctx):
 
     # ---- wire_equiv (informational)
     try:
-        ctx.coverage["wire_equiv_structural_checker_informational"] = wire_equiv_info(ctx, run_, "c04we" + ("q" if quick else "t"))
+        ctx.coverage["wire_equiv_structural_checker_informational"] = wire_equiv_info(ctx, run_, "c04we-" + uniq)
     except Exception as e:  # noqa
         ctx.coverage["wire_equiv_structural_checker_informational"] = "error: " + str(e)[-300:]
 
@@ -902,6 +939,9 @@ def run(ctx):
         ctx.violation({"broken_obligations": [(b[0], b[2][:1500]) for b in ctx.broken()],
                        "note": "a theorem or the K5-origin correspondence no longer checks; the value exchange found "
                                "no failing input"}, no_input=True)
+    import shutil
+    for t_ in ("c04k5-", "c04we-", "c04f-"):
+        shutil.rmtree(os.path.join(vlib.WORK, "cases", t_ + uniq), ignore_errors=True)
     if ctx.tier == "thorough" and coq_ok:
         rc, out, err = vlib.sh("timeout 1500 coqchk -silent -o -Q theories Typify Typify.Props.C04", cwd=vlib.COQ,
                                timeout=1600)
